@@ -40,6 +40,12 @@ func c05cfg(c *sym.Config) {
 
 var mustC08 = []string{"segmented-decode-ok", "segmented-rows", "segmented-values", "segmented-consumed-all", "segmented-truncated-rejected"}
 
+func noReturn(c *sym.Config) {
+	c.UnwindLabel = "does-not-return"
+	c.MaxSteps = 1_500_000
+	c.MaxLoop = 3000
+}
+
 var props = map[string]*propDef{
 	"C14": {
 		ID: "C14", Level: "model_checking", Rule: ruleDefault,
@@ -251,6 +257,27 @@ var props = map[string]*propDef{
 			{Name: "ch.VerifC13OldServer"},
 			{Name: "ch.VerifC13Failure"},
 			{Name: "ch.VerifC13Delay"},
+		},
+	},
+	"C04": {
+		ID: "C04", Level: "model_checking", Rule: ruleDefault,
+		Assumptions: append([]string{
+			"Client.Do is run under the cooperative scheduler with three non-preemptive policies (lowest-id first = sender first, highest-id first = receiver first, round robin); a switch happens only at connection, context and channel operations, so orders that need a preemption between two plain statements are outside",
+			"a silent server ends in a read-timeout and then EOF (finite read timeout)",
+		}, baseAssumptions...),
+		Harnesses: []harnessDef{
+			{Name: "ch.VerifC04Faults", Repeat: 200, Cfg: noReturn},
+		},
+	},
+	"C10": {
+		ID: "C10", Level: "model_checking", Rule: ruleDefault,
+		Assumptions: append([]string{
+			"the caller's context is a harness type whose cancellation flips at the k-th observation (Err/Done/Deadline call), k enumerated; cancellation can only be observed at those points, so this is cancellation 'at any time' up to non-preemptive schedules",
+			"wall-clock promptness is outside; a silent server yields a read timeout, after which the receive loop must re-check the context",
+		}, baseAssumptions...),
+		Harnesses: []harnessDef{
+			{Name: "ch.VerifC10Cancel", Repeat: 200, Cfg: noReturn, Optional: []string{"completed-stream"}, Quick: map[string]int{"maxgate": 10}, Thorough: map[string]int{"maxgate": 24}},
+			{Name: "ch.VerifC10Handshake", Repeat: 200, Cfg: noReturn, Optional: []string{"client-returned"}, Quick: map[string]int{"maxgate": 8}, Thorough: map[string]int{"maxgate": 16}},
 		},
 	},
 }
